@@ -35,7 +35,7 @@ Definition pnode_eqb (a b : pnode) : bool :=
 Definition pvar_eqb (a b : pvar) : bool :=
   String.eqb (v_name a) (v_name b) && Nat.eqb (v_value a) (v_value b) && Nat.eqb (v_varvalue a) (v_varvalue b)
   && option_eqb Nat.eqb (v_dist a) (v_dist b) && Bool.eqb (v_obs a) (v_obs b) && Bool.eqb (v_par a) (v_par b)
-  && nlist_eqb (v_groups a) (v_groups b).
+  && nlist_eqb (v_groups a) (v_groups b) && Bool.eqb (v_auto a) (v_auto b).
 
 (* outputs are only observable while a node is in a model *)
 Definition norm (n : pnode) : pnode := if n_inmodel n then n else set_outs [] n.
@@ -93,7 +93,8 @@ Definition is_cycle (w : world) (wit : list nid) : bool :=
 (* names and model membership of the objects that existed before the operation *)
 Definition old_part (w : world) (k : nat) : list (string * bool) :=
   map (fun n => (n_name n, n_inmodel n)) (firstn k (w_nodes w)).
-Definition old_vnames (w : world) (k : nat) : list string := map v_name (firstn k (w_vars w)).
+Definition old_vnames (w : world) (k : nat) : list string :=
+  map (fun v => (v_name v ++ (if v_auto v then "!auto" else ""))%string) (firstn k (w_vars w)).
 
 (* records of the nodes that were in a model before the operation *)
 Definition live_part (w0 w : world) : list pnode :=
@@ -160,7 +161,9 @@ Definition agree_mutate (proxy_fix : bool) (w : world) (t : target) (mu : mutati
 Inductive step :=
 | SBuild (copy grow : bool) (w : world) (rn : list nid) (rv : list vid) (o : obs_build)
 | SPop (w : world) (mo : list nid) (vo : list vid) (wo : world) (keys vkeys : list string)
-| SMutate (w : world) (t : target) (mu : mutation) (rejected : bool) (wo : world).
+| SMutate (w : world) (t : target) (mu : mutation) (rejected : bool) (wo : world)
+(* the model object was dropped without pop (garbage collected): its nodes are free again *)
+| SDrop (w : world) (mo : list nid) (wo : world).
 
 (* the variant of the code the current tree implements: all three repairs present
    (strip = 005a821, check_first = 5ebbe54, proxy_fix = 66a7abc) *)
@@ -169,6 +172,7 @@ Definition agree_step (s : step) : bool :=
   | SBuild copy grow w rn rv o => agree_build true true true copy grow w rn rv o
   | SPop w mo vo wo keys vkeys => agree_pop w mo vo wo keys vkeys
   | SMutate w t mu rej wo => agree_mutate true w t mu rej wo
+  | SDrop w mo wo => world_eqb (pop w (mkM mo [])) wo
   end.
 
 Definition agrees (c : list step) : bool := forallb agree_step c.
